@@ -187,7 +187,7 @@ class Feed:
             if id(M.roots[st["c"]]) in self.explicit_roots:
                 self.explicit_roots.add(id(M.roots[st["as"]]))
             self.touch(st["as"], i)
-            if id(M.roots[st["c"]]) in self.pure_lib:
+            if id(M.roots[st["c"]]) in self.pure_lib and id(M.roots[st["c"]]) not in self.user_ops:
                 self.pure_lib.add(id(M.roots[st["as"]]))
         elif op == "APPLY":
             name = st["c"]
